@@ -118,12 +118,12 @@ Example C03_example_hyps :
   /\ (unmarked (hp ex_vm) (gcmap (hp ex_vm)) < 9)%nat.
 Proof.
   split; [apply no_used_by_elements; reflexivity|]. split; [|vm_compute; auto].
-  split; [|split; [|split; [reflexivity|vm_compute; discriminate]]].
+  split; [|split; [|split; [reflexivity|vm_compute; reflexivity]]].
   - intros a Ha. change (hlen (hp ex_vm)) with 8 in Ha.
     assert (H : forallb (fun a => cell_closed (st ex_vm) 2 (cell_at (hp ex_vm) a)) (range_asc 0 8) = true)
       by reflexivity.
     rewrite forallb_forall in H. apply H. apply in_range_asc. cbn. split; [apply N.le_0_l|exact Ha].
-  - intros x Hx. cbn in Hx. destruct Hx as [<-|[<-|[]]]; reflexivity.
+  - intros x Hx. vm_compute in Hx. destruct Hx as [<-|[<-|[]]]; reflexivity.
 Qed.
 Example C03_example_run : exists h',
   collect 2 9 [] ex_vm = Ok h'
